@@ -520,6 +520,12 @@ func NewWorld(t *testing.T, cfg Config, seed uint64, concurrent bool) *World {
 
 // restart (re)builds the server side: fresh authboss instances over the
 // surviving user stores.
+// rememberActive: the remember middleware is installed (with the expire
+// middleware only in the C09 configurations that combine the two).
+func (w *World) rememberActive() bool {
+	return w.Cfg.hasModule("remember") && (!w.Cfg.hasSetup("expire") || w.Cfg.ExpireWithRemember)
+}
+
 // mountProbes builds the guards of every probe route, as an application does
 // when it starts (the map is read-only while requests are served).
 func (w *World) mountProbes() {
@@ -528,7 +534,17 @@ func (w *World) mountProbes() {
 	for reqs := 0; reqs < 4; reqs++ {
 		for mp := 0; mp < 2; mp++ {
 			for mode := 0; mode < 3; mode++ {
-				m[fmt.Sprintf("mw/%d/%d/%d", reqs, mode, mp)] = authboss.MountedMiddleware2(ab, mp == 1, authboss.MWRequirements(reqs), authboss.MWRespondOnFailure(mode))
+				guard := authboss.MountedMiddleware2(ab, mp == 1, authboss.MWRequirements(reqs), authboss.MWRespondOnFailure(mode))
+				m[fmt.Sprintf("mw/%d/%d/%d", reqs, mode, mp)] = guard
+				// the same guard behind an application middleware that has
+				// already loaded the current user into the request context
+				m[fmt.Sprintf("chain/%d/%d/%d", reqs, mode, mp)] = func(h http.Handler) http.Handler {
+					inner := guard(h)
+					return http.HandlerFunc(func(rw http.ResponseWriter, r *http.Request) {
+						ab.LoadCurrentUser(&r)
+						inner.ServeHTTP(rw, r)
+					})
+				}
 			}
 			for redirect := 0; redirect < 2; redirect++ {
 				full, twofa := reqs&1 != 0, reqs&2 != 0
@@ -558,6 +574,17 @@ func (w *World) restart() {
 	w.confirmMod = &confirm.Confirm{Authboss: w.AB}
 	w.mountProbes()
 	w.Handler = w.buildHandler()
+}
+
+// adminInstance is the authboss instance of an operator tool (a CLI, a worker):
+// same user store and hasher, no modules loaded, never serves a request.
+func (w *World) adminInstance() *authboss.Authboss {
+	ab := authboss.New()
+	ab.Config.Storage.Server = w.DB
+	ab.Config.Modules.BCryptCost = bcrypt.MinCost
+	ab.Config.Core.Hasher = w.AB.Config.Core.Hasher
+	ab.Config.Core.Logger = w.AB.Config.Core.Logger
+	return ab
 }
 
 // newSite builds and initialises one authboss instance. The first is the
@@ -778,7 +805,7 @@ func (w *World) buildHandler() http.Handler {
 	mux := http.HandlerFunc(func(rw http.ResponseWriter, r *http.Request) {
 		p := r.URL.Path
 		switch {
-		case strings.HasPrefix(p, "/probe/"):
+		case strings.HasPrefix(p, "/probe/"), p == "/nok/lock" && w.Cfg.hasModule("lock"), p == "/nok/confirm" && w.Cfg.hasModule("confirm"):
 			w.serveProbe(rw, r)
 		case w.Cfg.Mount == "" || p == w.Cfg.Mount || strings.HasPrefix(p, w.Cfg.Mount+"/"):
 			if w.Cfg.AppLoadsUser {
@@ -802,6 +829,11 @@ func (w *World) buildHandler() http.Handler {
 	h = authboss.ModuleListMiddleware(ab)(h)
 	if w.expireOn {
 		h = expire.Middleware(ab)(h)
+		if w.Cfg.ExpireWithRemember && w.Cfg.hasModule("remember") {
+			// remember outside expire: an expired session is wiped first,
+			// the cookie logs the browser in again on its next request
+			h = remember.Middleware(ab)(h)
+		}
 	} else if w.Cfg.hasModule("remember") {
 		h = remember.Middleware(ab)(h)
 	}
@@ -852,6 +884,12 @@ func (w *World) serveProbe(rw http.ResponseWriter, r *http.Request) {
 		io.WriteString(rw, "probe-ok")
 	})
 	parts := strings.Split(strings.TrimPrefix(r.URL.Path, "/probe/"), "/")
+	switch r.URL.Path {
+	case "/nok/lock":
+		parts = []string{"lock"}
+	case "/nok/confirm":
+		parts = []string{"confirm"}
+	}
 	// the application mounts each guarded route once, when it starts: the
 	// middleware values live as long as the server process (see mountProbes)
 	mounted := func(key string) http.Handler {
@@ -863,7 +901,7 @@ func (w *World) serveProbe(rw http.ResponseWriter, r *http.Request) {
 	switch parts[0] {
 	case "open":
 		final.ServeHTTP(rw, r)
-	case "mw", "legacy":
+	case "mw", "legacy", "chain":
 		if len(parts) < 4 {
 			http.NotFound(rw, r)
 			return
